@@ -34,7 +34,12 @@ def run(ctx):
                 out.append(c.name.replace("reset_trade_vols", "reset_trade_vol").replace("get_trade_vols", "get_trade_vol"))
         return out
     a, b = abstraction(shapes["Env"]), abstraction(shapes["MarketEnv"])
-    ctx.check(a == b, "siblings", "step", ctx.loc(shapes["MarketEnv"].f), "Env::step and MarketEnv::step drive their book/market through the same call sequence %s" % a,
+
+    def canon(seq):
+        # the counter reset and the getters commute with each other: compare what is called (multiset) and the order of the
+        # clock writes / applications (that the reset precedes the loop is its own rule)
+        return (sorted(seq), [x for x in seq if x in ("set_time", "process_event")])
+    ctx.check(canon(a) == canon(b), "siblings", "step", ctx.loc(shapes["MarketEnv"].f), "Env::step and MarketEnv::step drive their book/market through the same call sequence %s" % a,
               "Env::step does %s but MarketEnv::step does %s" % (a, b))
     # process_event dispatch
     for owner, f in (("OrderBook", m.book_fn("process_event")), ("Market", m.market_fn("process_event"))):
@@ -143,10 +148,15 @@ def step_rules(ctx, m, owner, s):
         ctx.lost("loop", "%s has no loop iterating the taken batch" % tag)
         return
     chain = list(s.chain)
+    s.iter_chain(s.loop_next)      # (sets s.zip_partner for this loop)
     enumerated = "enumerate" in chain
-    ctx.check(chain and chain[0] == "into_iter" and not [n for n in chain if n in ADAPTERS and n != "rev"]
-              and [n for n in chain if n not in ("into_iter", "iter", "rev")] == (["enumerate"] if enumerated else []), "loop", tag + "|adapters", s.loop_next.loc(),
-              "the loop iterates the whole taken batch: adapter chain %s" % list(reversed(chain)), "the loop's iterator chain is %s (only rev* then an optional enumerate allowed)" % list(reversed(chain)))
+    # `(start..).zip(batch)`: the unbounded range of clock values start, start+1, .. restricts nothing and its element IS the
+    # time of the item's position
+    zipped = s.zip_clock(s.get_time[0].result) if len(s.get_time) == 1 and chain.count("zip") == 1 and not enumerated else None
+    plain = [n for n in chain if not (n == "zip" and zipped is not None)]
+    ctx.check(plain and plain[0] in ("into_iter", "iter") and not [n for n in plain if n in ADAPTERS and n != "rev"]
+              and [n for n in plain if n not in ("into_iter", "iter", "rev")] == (["enumerate"] if enumerated else []), "loop", tag + "|adapters", s.loop_next.loc(),
+              "the loop iterates the whole taken batch: adapter chain %s" % list(reversed(chain)), "the loop's iterator chain is %s (only rev*, then an optional enumerate or a zip with the unbounded clock range `start..` allowed)" % list(reversed(chain)))
     loops_over_T = [c for c in q.calls("next") if q.cfg.in_loop(c.b) and (s.iter_chain(c) or [None])[-1] == ("local", s.T)]
     ctx.check(len(loops_over_T) == 1, "loop", tag + "|single", ctx.loc(f), "exactly one loop consumes the batch")
     # start time
@@ -162,6 +172,9 @@ def step_rules(ctx, m, owner, s):
     if enumerated:
         idx = s.item("0")
         item = s.item("1")
+    elif zipped is not None:
+        idx = None
+        item = s.item(zipped)
     else:
         idx = None        # position = an explicit counter (0 before the loop, += 1 once per iteration, read before the increment)
         item = s.item()
@@ -180,6 +193,9 @@ def step_rules(ctx, m, owner, s):
             e = e[1] if e[0] == "conv" else e[2]
         return same(e, idx)
     ok = len(in_loop) == 1 and is_sum(in_loop[0].args[1], is_idx)
+    if zipped is not None:
+        # the range element paired with the item is start + position by construction
+        ok = len(in_loop) == 1 and same(in_loop[0].args[1], s.item("1" if zipped == "0" else "0"))
     ctx.check(ok, "clock", tag + "|intra-step", in_loop[0].loc() if in_loop else ctx.loc(f), "each processed instruction gets time start + its position in the processing order (%s)" % ("enumerate index" if enumerated else "explicit per-iteration counter"),
               "intra-step clock writes: %s" % "; ".join(c.text() for c in in_loop))
     pe = [c for c in s.process if c.b in s.body]
